@@ -23,6 +23,9 @@ def run_case(ctx, case):
     rec.count("request", "valid" if valid else "invalid")
     rec.count("weights", "rational" if W is not None else "polynomial")
     impl(lambda: float_twin(U, P, W).knot_insert([float(x) for x in nodes]))     # float data first (cross-call caches)
+    for tw in mixed_twins(U, P, W):
+        impl(lambda: tw.knot_insert(list(nodes)))       # int / float knots, the very same exact nodes
+        rec.count("twin", "mixed-knot-types")
     curve = make_curve(U, P, W)
     before = curve_state(curve)
     r = impl(lambda: curve.knot_insert(list(nodes)))
@@ -101,6 +104,12 @@ def run(ctx):
     run_case(ctx, ser(dict(kind="insert", U=[F(0), F(0), F(1, 2), F(1), F(1)], P=[(F(1),), (F(2),), (F(5),)], W=None, nodes=[F(0), F(1)])))
     for i in range(budget(ctx, 160, 2500)):
         U, P, W = rand_curve(rng, bigknots=(rng.random() < 0.1), force_zero=(i % 6 == 0))
+        if i % 8 == 5:
+            # knots that exist as python ints / floats too (integer or dyadic values)
+            U = rand_int_kv(rng, pmax=3, nintmax=2) if rng.random() < 0.5 else rand_dyadic_kv(rng, pmax=3, nintmax=2)
+            n_ = kv_info(U)[1]
+            P = rand_points(rng, n_, rng.choice([1, 2]))
+            W = rand_weights(rng, n_, rng.choice(["none", "pos"]))
         if i % 7 == 3 and len(P[0]) > 1 and len(P) > 2:
             P[-1] = P[0]                     # closed curve: first and last control point are the same object
             if W is None:
